@@ -10,6 +10,7 @@ import FractopoModel.Spec.Validators
 import FractopoModel.Spec.Defects
 import FractopoModel.Model.Grid
 import FractopoModel.Model.Cli
+import FractopoModel.Model.Snap
 /-!
 # Model driver: runs the hand-written models and specs (never the regenerated
 definitions, so that it builds whatever the state of /repo) behind a line protocol.
@@ -244,6 +245,43 @@ def tuplerepr (a : Args) : Option String := do
   let items := if s.isEmpty then [] else (s.splitOn ";").map dec
   some s!"text={enc (Cli.pyTupleRepr items)}"
 
+/-- `insertpt t= line= pt=`: model of insert_point_to_linestring (exact geometry) -/
+def insertpt (a : Args) : Option String := do
+  let t ← (a.get? "t") >>= parseRat?
+  let l ← (a.get? "line") >>= parseLine?
+  let p ← (a.get? "pt") >>= parsePt?
+  let ds := (segs l).map fun (x, y) => ptSegDist2 p x y
+  -- crisp: the closest segment and the nearer end are unique, the threshold test is not at equality
+  let dmin := minList ds 0
+  let uniq := (ds.filter (· == dmin)).length == 1
+  let j := Snap.argminIdx ds
+  let u := l.getD j default
+  let v := l.getD (j + 1) default
+  let crisp := uniq && Pt.dist2 p u != Pt.dist2 p v && Pt.dist2 p u != t * t && Pt.dist2 p v != t * t
+  some s!"line={showLine (Snap.insertGeo l p t)} crisp={showBool crisp}"
+
+/-- `feature t= m= a= end=x,y target=<line> areas=<area>`: exact squared distances of a trace end to a
+target trace / to the area boundary and the documented windows (hand-written spec) -/
+def feature (a : Args) : Option String := do
+  let t ← (a.get? "t") >>= parseRat?
+  let m ← (a.get? "m") >>= parseRat?
+  let ae ← (a.get? "a") >>= parseRat?
+  let e ← (a.get? "end") >>= parsePt?
+  let target ← (a.get? "target") >>= parseLine?
+  let areas ← (a.get? "areas") >>= parseArea?
+  let d2 := (ptLineDist2 e target).getD 0
+  let under := decide (t * t < d2) && decide (d2 < (t * m) * (t * m))
+  let snapped := decide (d2 < t * t)
+  let b2 := minList (areas.map fun row => AreaRow.boundaryDist2 row e) 0
+  let areaw := decide (t * t ≤ b2) && decide (b2 < (t * m * ae) * (t * m * ae))
+  -- crisp: the verdict does not change when every threshold is scaled by 1 ± 1e-6
+  let k1 : Rat := 1000001 / 1000000
+  let k0 : Rat := 999999 / 1000000
+  let stable := fun (x lo hi : Rat) =>
+    (decide (lo * lo * k1 * k1 < x) == decide (lo * lo * k0 * k0 < x)) && (decide (x < hi * hi * k1 * k1) == decide (x < hi * hi * k0 * k0))
+  let crisp := stable d2 t (t * m) && stable b2 t (t * m * ae)
+  some s!"under={showBool under} snapped={showBool snapped} area={showBool areaw} crisp={showBool crisp}"
+
 /-- `defects traces=`: documented defect strings per trace on a crisp configuration -/
 def defects (a : Args) : Option String := do
   let traces ← (a.get? "traces") >>= parseLines?
@@ -314,6 +352,8 @@ def dispatch (line : String) : String :=
       | "rel" => Cmd.rel a
       | "validate" => Cmd.validate a
       | "defects" => Cmd.defects a
+      | "insertpt" => Cmd.insertpt a
+      | "feature" => Cmd.feature a
       | "tuplerepr" => Cmd.tuplerepr a
       | "grid" => Cmd.grid a
       | "inarea" => Cmd.inarea a
